@@ -27,7 +27,9 @@ RULE = (
     "non-output is rejected. The same filters hold for FAILED and PAUSED results. Part B: control-flow programs with cached gates "
     "run twice on one runner (cache hit restores the routing decision): same key filters. Part C: an interval of a flat DAG nested "
     "with an inner DEFAULT selection (a drawn subset of its outputs, possibly empty): the outer graph declares and returns exactly the "
-    "outside outputs plus the selected ones, with the reference values. Non-trivial = an entry point that "
+    "outside outputs plus the selected ones, with the reference values. Part D: structured loops (C04's generator) with an upstream node "
+    "excluded by 1-3 entry points that all lie on the one cycle (one call or chained): the upstream node never runs and the result equals "
+    "the sequential loop on the caller's values. Non-trivial = an entry point that "
     "excludes >=1 runnable upstream node together with a selection that drops >=1 produced output."
 )
 ASSUMPTIONS = ["a caller-supplied upstream name that is also a declared output may be returned (the statement allows declared outputs)"]
@@ -37,6 +39,12 @@ ROUTING_KEY = "__routing_decision__"
 
 @st.composite
 def _case(draw, tier):
+    if prob(draw, 0.1):
+        # Part D: entry points on a CYCLE (a structured loop with an excluded upstream node), incl. several on the same cycle
+        from .c04 import _case as loop_case
+
+        c = draw(loop_case(tier, force_pre_entry=True))
+        return {"part": "D", "loop": c["loop"], "order": c["order"], "runner": draw(st.sampled_from(["sync", "async"]))}
     if prob(draw, 0.2):
         nodes, labels = draw(gen.g2_nodes(max_nodes=5, p_fail=0.2))
         for n in nodes:
@@ -231,7 +239,43 @@ def _part_c(case, ev):
     ev.case(case, bool(hidden), sorted(labels))
 
 
+def _part_d(case, ev):
+    from ..loops import eval_loop, loop_graph_spec, loop_values
+    from .c04 import _run_kw
+
+    L = case["loop"]
+    if not L.get("pre_entry"):
+        ev.discard("part_D:form_without_excluded_upstream")
+        return
+    gspec = loop_graph_spec(L, case["order"])
+    env, counts, _, iters = eval_loop(L)
+    vals = loop_values(L)
+    ctx = Ctx()
+    g = make_graph(ctx, gspec, "sync")
+    out, _ = _run(case["runner"], g, vals, **_run_kw(L, g))
+    entry = gspec["entry"]
+    tag = f"part D {case['runner']} loop form={L['form']} k={L['k']} entry points={entry}{' (chained)' if gspec.get('entry_chain') else ''}"
+    ran = {f for f, _ in ctx.log}
+    if "mk_limit" in ran:
+        raise Violation("c16.upstream_ran", f"[{tag}] mk_limit lies upstream of every entry point but executed", history=False, cyclic=True)
+    if out.status != "completed":
+        raise Violation("c16.status", f"[{tag}] {out.brief()}")
+    outs = {o for n in gspec["nodes"] for o in n.get("outs", [])}
+    emit_names = {o for n in gspec["nodes"] for o in n.get("emit", [])}
+    _filters(tag, out, outs, emit_names, set(vals) - outs, set(vals))
+    if out.values != env:
+        diff = {k: (J(out.values.get(k, "<absent>")), J(env.get(k, "<absent>"))) for k in set(out.values) | set(env) if out.values.get(k, "<absent>") != env.get(k, "<absent>")}
+        raise Violation("c16.cyclic_scope_values", f"[{tag}] the entry nodes and everything downstream of them (the whole cycle) must run with the caller's upstream values; "
+                        f"(got, expected) {diff}; executed {sorted(ran)}", nothing_ran=not ran)
+    labels = {"part:D", "cyclic_entry_points", f"entry_points:{min(len(entry), 3)}", f"runner:{case['runner']}"}
+    if gspec.get("entry_chain") and len(entry) > 1:
+        labels.add("chained_entrypoints")
+    ev.case(case, len(entry) > 1 and iters >= 1, sorted(labels))
+
+
 def check_case(case, ev):
+    if case["part"] == "D":
+        return _part_d(case, ev)
     if case["part"] == "B":
         return _part_b(case, ev)
     if case["part"] == "C":
